@@ -1,6 +1,11 @@
 """C13 part — HMAC over the MD4/MD5/SHA-0/SHA-1/SHA-2 objects (and over a toy hash object, to exercise crysp/hmac.py
 for block/digest sizes no real hash of the library has).  check_impl recomputes RFC 2104 independently (Python's hmac
-module where hashlib has the hash, the formula over a reference digest otherwise)."""
+module where hashlib has the hash, the formula over a reference digest otherwise).
+
+  hmach <alg> | <step> | …     ONE hash object with a HISTORY handed to HMAC: the steps of C01's `hashcalls` lines (preset <n> |
+                               init | upd <hex> [L] | fin <hex> [L] | call <hex> <bitlen|None>) and `mac <key> <msg>`
+                               (o = HMAC(h,key); o(msg)), `again <msg>` (o(msg) once more, after whatever was done to h since);
+                               the line prints the outcome of every call / mac / again step"""
 import hmac as pyhmac
 from props.common import *
 from props import hashcommon as HC
@@ -11,7 +16,24 @@ GEN_ITEMS = ['Hashes']
 TRUSTED = ['lean/Spec/Hmac.lean as a rendering of RFC 2104 / FIPS 198-1 (validated in this stream against Python\'s hmac module: supporting evidence only)']
 ASSUMPTIONS = ['HMAC over a hash whose digest is longer than its block (toy lines only; no hash of the library) is compared code<->model only']
 
-run_impl = HC.run_impl
+def run_impl(line):
+    t = line.split()
+    if t[0] != 'hmach': return HC.run_impl(line)
+    from crysp.hmac import HMAC
+    steps = HC.split_bar(t[1:])
+    h = HC.mk(steps[0][0])
+    box = {'o': None}
+    out = []
+    for st in steps[1:]:
+        if st[0] == 'mac':
+            def go():
+                o = HMAC(h, unhx(st[1])); box['o'] = o
+                return hx(o(unhx(st[2])))
+            out.append(guarded(go))
+        elif st[0] == 'again': out.append(guarded(lambda: hx(box['o'](unhx(st[1])))))
+        elif st[0] == 'call': out.append(HC.do_step(h, st)[0])
+        else: HC.do_step(h, st)
+    return ';'.join(out)
 
 
 def rfc2104(H, B, k, m):
@@ -26,8 +48,43 @@ def ref_hmac(alg, k, m):
     return rfc2104(lambda x: HC.reference_digest(alg, x), HC.blocklen(alg), k, m)
 
 
+def check_hist(a, res):
+    """every MAC is RFC 2104 over the standard hash for the key of its HMAC object (Python's hmac module / the formula over
+    the reference digest), every one-shot call the reference digest of its own message — whatever the hash object was used
+    for before"""
+    steps = HC.split_bar(a)
+    alg = steps[0][0]
+    shown = [st for st in steps[1:] if st[0] in ('call', 'mac', 'again')]
+    outs = res.split(';') if res else []
+    if len(outs) != len(shown): return 'hmach %s: %d results for %d call/mac/again steps' % (alg, len(outs), len(shown))
+    key, seen, j = None, [], 0
+    for st in steps[1:]:
+        if st[0] not in ('call', 'mac', 'again'):
+            seen.append(st[0] + ('' if len(st) < 3 else ' L=' + st[2])); continue
+        o = outs[j]; j += 1
+        bad = lambda why: 'hmach %s step %s after [%s]: %s' % (alg, st[0], ' | '.join(seen[:-1]), why)
+        seen.append(st[0] + (' L=' + st[2] if st[0] == 'call' else ''))
+        if st[0] == 'call':
+            M, L = unhx(st[1]), unoi(st[2])
+            if L is not None and L > 8 * len(M):
+                if o != 'ERR': return bad('a bit length beyond the data must be refused')
+            elif L is None or (L % 8 == 0 and (L or not M)):
+                exp = HC.reference_digest(alg, M if L is None else M[:L // 8])
+                if exp is not None and o != hx(exp): return bad('differs from the reference digest of its own message')
+            continue
+        if st[0] == 'mac': key = unhx(st[1])
+        if key is None:
+            if o != 'ERR': return bad('there is no HMAC object yet')
+            continue
+        m = unhx(st[2] if st[0] == 'mac' else st[1])
+        exp = hx(ref_hmac(alg, key, m))
+        if o != exp: return bad('|K|=%d |M|=%d: the MAC %s differs from RFC 2104 over the standard hash, %s' % (len(key), len(m), o[:25], exp[:25]))
+    return None
+
+
 def check_impl(line, res):
     t = line.split(); op, a = t[0], t[1:]
+    if op == 'hmach': return check_hist(a, res)
     bad = lambda why: '%s %s: %s' % (op, a[0], why)
     if op == 'hmac':
         exp = hx(ref_hmac(a[0], unhx(a[1]), unhx(a[2])))
@@ -52,10 +109,53 @@ def key_lengths(B, D):
     return sorted(x for x in s if x >= 0)
 
 
+def histories(alg, rng):
+    """what a hash object may have been used for before it is handed to HMAC / between two MACs -> [(tag, steps)]"""
+    B, c = HC.blocklen(alg), HC.cntlen(alg)
+    m, t, b1 = rnd(rng, B + 9), rnd(rng, 3), rnd(rng, B)
+    return [('one-shot call with a ragged bit length', ['call %s %d' % (hx(m), 8 * B + 13)]),
+            ('one-shot call ending on the spill boundary', ['call %s None' % hx(rnd(rng, B - c - 1))]),
+            ('abandoned stream', ['upd ' + hx(b1)]),
+            ('abandoned stream with a buffered rest', ['upd ' + hx(b1 + b1), 'upd ' + hx(t)]),
+            ('finished stream', ['upd ' + hx(b1), 'fin ' + hx(t)]),
+            ('refused call', ['call %s %d' % (hx(m), 8 * len(m) + 1)]),
+            ('refused final piece', ['upd ' + hx(b1), 'fin %s 32' % hx(t)]),
+            ('preset counter', ['preset %d' % (8 * B * rng.randrange(1, 1 << 20))]),
+            ('update on a padded object', ['fin ' + hx(t), 'upd ' + hx(b1)])]
+
+
+def hline(alg, steps): return 'hmach %s | %s' % (alg, ' | '.join(steps))
+
+
+def hist_cases(tier, rng):
+    """the hash object has a HISTORY before HMAC(h,key), between two MACs of one HMAC object and between two HMAC objects
+    over it; keys shorter than / equal to / longer than the block (setkey hashes a long key on the used object too)"""
+    thorough = tier == 'thorough'
+    for alg in HC.NAMES:
+        B, D = HC.blocklen(alg), HC.outlen(alg)
+        hs = histories(alg, rng)
+        for hi, (tag, life) in enumerate(hs):
+            for kl in ((1, D, B, B + 1, 2 * B + 3) if thorough else (D, B + 1) if hi < 3 else (rng.choice([1, B, B + 5]),)):
+                k, m = rnd(rng, kl), rnd(rng, rng.choice([0, 3, B - 9, B + 1]))
+                yield hline(alg, life + ['mac %s %s' % (hx(k), hx(m))]), 'hmach:%s, then HMAC' % tag
+            if not thorough and hi % 2 and alg not in ('md5', 'sha1', 'sha256', 'sha512'): continue
+            k, k2, m = rnd(rng, rng.choice([D, B + 2])), rnd(rng, rng.choice([5, B + 7])), rnd(rng, rng.randrange(0, B))
+            other = hs[(hi + 4) % len(hs)][1]
+            yield hline(alg, ['mac %s %s' % (hx(k), hx(m))] + life + ['again ' + hx(m)] + other + ['mac %s %s' % (hx(k2), hx(m)), 'again ' + hx(rnd(rng, 4)), 'call %s None' % hx(m)]), 'hmach:HMAC, %s, the same HMAC again, another history, a new HMAC' % tag
+        ls = list(hs); rng.shuffle(ls)
+        yield hline(alg, [x for _, life in ls[:4] for x in life] + ['mac %s %s' % (hx(rnd(rng, B + 1)), hx(rnd(rng, 9))), 'call %s None' % hx(rnd(rng, 5))]), 'hmach:several lives, then HMAC'
+    yield hline('sha256', ['again x00', 'mac x01 x02']), 'hmach:malformed'
+
+
 def cases(tier, rng):
     if tier == 'search':
         while True:
             alg = rng.choice(HC.NAMES); B = HC.blocklen(alg)
+            if rng.randrange(3) == 0:
+                life = [x for _ in range(rng.randrange(1, 3)) for x in rng.choice(histories(alg, rng))[1]]
+                kl = rng.choice([rng.randrange(0, B + 1), B + rng.randrange(1, 9)])
+                yield hline(alg, life + ['mac %s %s' % (hx(rnd(rng, kl)), hx(rnd(rng, rng.randrange(0, 2 * B))))]), 'search'
+                continue
             yield 'hmac %s %s %s' % (alg, hx(rnd(rng, rng.choice([rng.randrange(0, 3 * B + 1), B + rng.randrange(-2, 3)]))), hx(rnd(rng, rng.randrange(0, 3 * B)))), 'search'
         return
     thorough = tier == 'thorough'
@@ -73,6 +173,7 @@ def cases(tier, rng):
         seqs = [(B + 1, 1), (1, B + 1), (B, B + 1, B - 1), (3 * B, 0), (0, 3 * B), (D, B + D), (B + 5, B + 6)]
         for sq in seqs:
             yield 'hmacseq %s %s %s' % (alg, hx(rnd(rng, 5)), ' '.join(hx(rnd(rng, n)) for n in sq)), 'hmacseq:setkey replaces'
+    yield from hist_cases(tier, rng)
     # the HMAC class itself over a toy hash: block sizes 8..1024 bits, digest sizes up to (and beyond) the block
     for Bb in (8, 16, 64, 512, 1024):
         Bl = Bb // 8
@@ -84,6 +185,11 @@ def cases(tier, rng):
 
 def shrink(line):
     t = line.split()
+    if t[0] == 'hmach':
+        steps = HC.split_bar(t[1:])
+        for i in range(1, len(steps) - 1):                   # drop a step of the history (the last step stays)
+            yield hline(steps[0][0], [' '.join(x) for j, x in enumerate(steps[1:], 1) if j != i])
+        return
     if t[0] == 'hmac':
         k, m = unhx(t[2]), unhx(t[3])
         if m: yield 'hmac %s %s %s' % (t[1], t[2], hx(m[:len(m) // 2]))
